@@ -3,7 +3,7 @@
    GENERATED from EoN/analytic.py (Gen/Rhs2.v) -- the definitions the theorems of Props/C08t.v are about -- for
    evaluation by harness/c08t.py against master equations built independently in Python and against the Python
    function _dSIR_pair_based_ itself.  ExtrOcamlBasic only; nat/positive/N/Z/Q stay Coq datatypes. *)
-From EoNV Require Import Prelude Vec Graph Rhs2D Rhs2 Master.
+From EoNV Require Import Prelude Vec Graph Rhs2D Rhs2 Master C08tA C08tF.
 Require Extraction.
 Require Import ExtrOcamlBasic.
 
@@ -39,4 +39,8 @@ Definition cut_eval (G : graph) (nodelist : list node) (idx : node -> nat) (tr :
       residual nodelist j U pf a i b k;
       if sepb G nodelist j U then 1 else 0 ] ].
 
-Extraction "../ocaml/gen/master_model.ml" glue_types_master master_eval cut_eval Qred.
+(* the acceptance check of C08t_tree_pure_ic_partial and the number of branch cuts it examined *)
+Definition tree_check (G : graph) (nodelist : list node) (idx : node -> nat) : bool * nat :=
+  (tree_okb G nodelist idx, length (branch_cuts G nodelist)).
+
+Extraction "../ocaml/gen/master_model.ml" glue_types_master master_eval cut_eval tree_check Qred.
